@@ -356,7 +356,7 @@ class Model:
         for e in f["edges"]:
             mapped = e["map"] is not None
             nfset = fset
-            if e["feats"] is not None:
+            if e["feats"] is not None and "feats" not in self.relax:
                 nfset = set(e["feats"]) if fset is None else (set(e["feats"]) & fset)
             ncmap = [e["map"][c] for c in cmap] if mapped else cmap
             ntypes = types + (e["type"],)
@@ -630,14 +630,14 @@ def _open(mode, paths, srv):
     return RTDC_S3SIM(paths[0])
 
 
-def _classify(spec, mode, fnum, arr):
+def _classify(spec, mode, fnum, arr, extra=()):
     """why is `arr` not an admissible array for feature fnum"""
     for relax, name in ((("kf",), "identifier/basin-has-none/unmapped"),
                         (("id", "kf"), "identifier/mismatch-accepted"),
                         (("perm",), "isolation/file-basin-below-network-format"),
                         (("perm", "id", "kf"), "isolation/unpermitted-and-mismatching")):
         try:
-            m = Model(spec, mode, relax)
+            m = Model(spec, mode, relax + tuple(extra))
         except _TooBig:
             continue
         if arr is None:
@@ -709,6 +709,8 @@ def _run_mode(spec, rec, mode, M, paths, real, srv, gcls):
             ok, listing = guarded(lambda: list(ds.features_basin), "features_basin")
         # second listing must agree with the first one
         ok_b, listing2 = guarded(lambda: list(ds.features_basin), "features_basin")
+        # features_local walks through the file-type basins as well
+        ok_l, flocal = guarded(lambda: list(ds.features_local), "features_local")
     finally:
         _OPENS.active = False
         if ds is not None:
@@ -787,6 +789,17 @@ def _run_mode(spec, rec, mode, M, paths, real, srv, gcls):
                          f"offers it")
         if must and fnum not in M.innate(0):
             rec.cls("must:direct" if depth == 1 else "must:nested")
+    if ok_l and flocal is not None:
+        # features_local does not honour the feature restriction of a basin
+        # definition (not part of this property): model without restrictions
+        Mf = Model(spec, mode, ("feats",))
+        for fnum in sorted({int(f[7:]) for f in flocal
+                            if f.startswith("userdef") and f[7:].isdigit()} - Mf.list_may):
+            why = _classify(spec, mode, fnum, None, ("feats",))
+            rec.fail(_sig(why, "features_local", mode),
+                     f"{fname(fnum)} is listed in features_local although no permitted "
+                     f"basin offers it")
+        rec.checks += 1
     if listing is not None:
         ls = {int(f[7:]) for f in listing
               if f.startswith("userdef") and f[7:].isdigit()}
